@@ -5,7 +5,7 @@
    order), parents, children, hints, flags, validators and — where stated — histories of add calls.
    Run.Gen_Members is regenerated from nml.py on every run (lib/supergen.py over translators/tr_bindings.py). *)
 From Coq Require Import String List ZArith Bool Permutation.
-From LNML Require Import Lib.Dec Model.Gds Model.Super Proofs.SuperP.
+From LNML Require Import Lib.Dec Model.Gds Model.Super Proofs.SuperP Proofs.SuperP2.
 From Run Require Import Gen_Bindings Gen_Members Inst_C10.
 Import ListNotations.
 Open Scope string_scope.
@@ -241,3 +241,23 @@ Theorem C10_names_unique_now :
   forallb (fun k => Inst_C10.nodup_strs (map ms_name (members_set Gen_Members.M (mc_name k)))) Gen_Members.M = true.
 Proof. exact Inst_C10.member_names_unique. Qed.
 Print Assumptions C10_names_unique_now.
+
+(* ---- the value equality behind the duplicate test (C10_dup's `equal_to`) is the code's GeneratedsSuper.__eq__:
+   translators/tr_eq.py (fail closed) extracts the attribute names __eq__ leaves out of the pairwise comparison of the
+   instance dictionaries; they are exactly the two bookkeeping attributes, so no member attribute of any class
+   (from_, anytypeobjs_, ... included) is ignored, and dropping them from a component's member fields changes nothing *)
+Theorem C10_equality_excludes_only_bookkeeping : forall n,
+  In n Gen_Members.eq_excluded <-> In n ["parent_object_"; "gds_collector_"].
+Proof. apply set_eqb_spec. exact Inst_C10.eq_excluded_exact. Qed.
+Print Assumptions C10_equality_excludes_only_bookkeeping.
+
+Theorem C10_equality_sees_every_member : forall k m, In k Gen_Members.M -> In m (mc_specs k) ->
+  ~ In (rename_any (ms_name m)) Gen_Members.eq_excluded.
+Proof. exact (eq_sees_all_members_sound Gen_Members.eq_excluded Gen_Members.M Inst_C10.eq_sees_members). Qed.
+Print Assumptions C10_equality_sees_every_member.
+
+(* generic: a filter that excludes none of the field names is the identity, for every field list *)
+Theorem C10_equality_filter_is_identity : forall (A : Type) excluded (fs : list (string * A)),
+  (forall n, In n (map fst fs) -> ~ In n excluded) -> drop_excluded excluded fs = fs.
+Proof. intros A. exact (@drop_excluded_id A). Qed.
+Print Assumptions C10_equality_filter_is_identity.
